@@ -708,6 +708,69 @@ def _run_signature_shapes(env, acc):
                         acc.violation(f"roundtrip/{style}/signature-shapes/{kind}/{shape}", f"{style} {kind.capitalize()} item `{sig}`: parsed {got!r}, written {exp!r}", case_d, {"got": got, "expected": exp}, size=len(text))
 
 
+SPELL_SRC = """
+import typing
+from typing import Tuple, Generator
+from typing import *
+class Outer:
+    class Mid:
+        class Inner: ...
+def t1() -> tuple[int, str]: ...
+def t2() -> Tuple[int, str]: ...
+def t3() -> typing.Tuple[int, str]: ...
+def g2() -> Generator[Tuple[int, str], Tuple[int, str], Tuple[int, str]]: ...
+def u3(x: int | str | None, y: Outer.Mid.Inner = None, z: "bytes | str | int | None" = None) -> bytes | str | None: ...
+"""
+SPELL_STAR_SRC = "from typing import *\ndef t4() -> Tuple[int, str]: ...\ndef t5() -> List[Tuple[int, str]]: ...\n"
+
+
+def _run_type_spellings(env, acc):
+    """Annotations taken from the signature, whatever way they are spelled: tuples written `tuple[...]`, `Tuple[...]` (imported by name, dotted, through a star import) are spread over
+    un-annotated Returns / Yields / Receives items; unions of three and four operands and dotted chains of three names come back in the order they were written."""
+    g = env["griffe"]
+    mod = g.visit("sp", filepath=Path("sp.py"), code=SPELL_SRC)
+    star = g.visit("st", filepath=Path("st.py"), code=SPELL_STAR_SRC)
+    for style in ("google", "numpy"):
+        for fn, kinds in (("t1", ["returns"]), ("t2", ["returns"]), ("t3", ["returns"]), ("t4", ["returns"]), ("g2", ["returns", "yields", "receives"])):
+            for kind in kinds:
+                items = [_item("first", None, D1), _item("second", None, D2)]
+                sections = [{"kind": "text", "text": [["Summary line."]]}, {"kind": kind, "items": items}]
+                text = RENDER[style](sections, {})
+                case_d = {"style": style, "family": "type-spellings", "text": text, "parent": fn}
+                parent = (star if fn == "t4" else mod)[fn]
+                try:
+                    got = _norm(g.Docstring(text, lineno=1, parent=parent).parse(style), env["enc"])
+                except Exception as e:  # noqa: BLE001
+                    acc.violation(f"raise/{style}/{type(e).__name__}/type-spellings", f"{style} parser raised {e!r}", case_d, None, size=len(text))
+                    continue
+                exp = [{"kind": "text", "value": "Summary line."}, {"kind": kind, "value": [{"name": "first", "annotation": "int", "description": _join(D1, style)}, {"name": "second", "annotation": "str", "description": _join(D2, style)}]}]
+                ok = got == exp
+                acc.case(case_d, outcome=f"{style}:{'ok' if ok else 'diff'}", nontrivial=True)
+                acc.observe(got)
+                if not ok:
+                    acc.violation(f"roundtrip/{style}/type-spellings/tuple-spread/{kind}/{fn}", f"{style} {kind} under `{fn}`: parsed {got!r}, expected {exp!r}", case_d, {"got": got, "expected": exp}, size=len(text))
+        # three and four operands, three dotted names: written in the docstring, and taken from the signature
+        for written in (True, False):
+            anns = {"x": "int | str | None", "y": "Outer.Mid.Inner", "z": "bytes | str | int | None"}
+            items = [_item(n, a if written else None, D1) for n, a in anns.items()]
+            ret = [_item("", "bytes | str | None" if written else None, D2)] if style == "google" else [_item("r", "bytes | str | None" if written else None, D2)]
+            sections = [{"kind": "text", "text": [["Summary line."]]}, {"kind": "parameters", "items": items}, {"kind": "returns", "items": ret}]
+            text = RENDER[style](sections, {})
+            case_d = {"style": style, "family": "type-spellings", "text": text, "parent": "u3", "written": written}
+            try:
+                got = _norm(g.Docstring(text, lineno=1, parent=mod["u3"]).parse(style), env["enc"])
+            except Exception as e:  # noqa: BLE001
+                acc.violation(f"raise/{style}/{type(e).__name__}/type-spellings", f"{style} parser raised {e!r}", case_d, None, size=len(text))
+                continue
+            got_anns = [(v.get("name"), v.get("annotation")) for sec in got if sec["kind"] in ("parameters", "returns") for v in sec["value"]]
+            want = [(n, a) for n, a in anns.items()] + [(ret[0]["name"] or "", "bytes | str | None")]
+            ok = [(n or "", a) for n, a in got_anns] == want
+            acc.case(case_d, outcome=f"{style}:{'ok' if ok else 'diff'}", nontrivial=True)
+            acc.observe(got_anns)
+            if not ok:
+                acc.violation(f"roundtrip/{style}/type-spellings/operand-order/{'written' if written else 'from-signature'}", f"{style}: annotations {got_anns}, written {want}", case_d, {"got": got_anns, "expected": want}, size=len(text))
+
+
 def run_shard(shard, tier):
     env = _setup()
     acc = Acc()
@@ -717,6 +780,7 @@ def run_shard(shard, tier):
         _run_sphinx_field_orders(env, acc)
     if shard == 1:
         _run_signature_shapes(env, acc)
+        _run_type_spellings(env, acc)
     for idx, case in enumerate(cases(tier)):
         if idx % NSHARDS != shard:
             continue
@@ -727,8 +791,8 @@ def run_shard(shard, tier):
 def replay(case):
     env = _setup()
     acc = Acc()
-    if case.get("family") in ("property-summary", "property-returns", "sphinx-field-orders", "signature-shapes"):
-        {"signature-shapes": _run_signature_shapes, "property-summary": _run_property_summary, "property-returns": _run_property_returns, "sphinx-field-orders": _run_sphinx_field_orders}[case["family"]](env, acc)
+    if case.get("family") in ("property-summary", "property-returns", "sphinx-field-orders", "signature-shapes", "type-spellings"):
+        {"type-spellings": _run_type_spellings, "signature-shapes": _run_signature_shapes, "property-summary": _run_property_summary, "property-returns": _run_property_returns, "sphinx-field-orders": _run_sphinx_field_orders}[case["family"]](env, acc)
         return [(k, v["summary"], v["detail"]) for k, v in acc.violations.items()]
     run_case(env, acc, (case["style"], tuple(case["sections"]), case["summary"], case["variant"]))
     return [(k, v["summary"], v["detail"]) for k, v in acc.violations.items()]
